@@ -33,3 +33,17 @@ def match_pipeline(prop, clause, prog, obs):
                 continue
         return f
     return None
+
+
+def match_conc(prop, clause, rec):
+    """Open finding matching a violation of the concurrency family, or None."""
+    for f in common.load_findings()['findings']:
+        m = f.get('match')
+        if f['status'] != 'open' or not m or m.get('family') != 'conc':
+            continue
+        if f['property'] != prop or m.get('clause') != clause:
+            continue
+        if any(rec.get(k) != v for k, v in m.get('record', {}).items()):
+            continue
+        return f
+    return None
